@@ -273,6 +273,21 @@ class C04(RecheckProp):
                                 c = self.mk(rng, P, v, src, 0, ["C04.lt100"], tree=(sh, sizes))
                                 c["damage"] = [{"file": f, "kind": kind, "arg": arg}]
                                 out.append(c)
+        # one damaged byte / one missing file among hundreds of files; damage in piece 1000 of 1025; deep nesting
+        small = [1, 2, 3, 5, B - 1, B, B + 1]
+        for v in (1, 2, 3):
+            sizes = tuple(rng.choice(small) if k % 7 else rng.choice((2 * B, 3 * B + 1)) for k in range(200))
+            for f, kind, arg in ((199, "flip", 0), (100, "remove", 0), (7, "trunc", sizes[7] - 1), (0, "flip", 0)):
+                c = self.mk(rng, B, v, "own", 0, ["C04.lt100"], tree=("DW", sizes))
+                c["damage"] = [{"file": f, "kind": kind, "arg": arg}]
+                out.append(c)
+            for arg in (1000 * B + 5, 1025 * B, 0):
+                c = self.mk(rng, B, v, "own", 0, ["C04.lt100"], tree=("S1", (1025 * B + 1,)))
+                c["damage"] = [{"file": 0, "kind": "flip", "arg": arg}]
+                out.append(c)
+            c = self.mk(rng, B, v, "own", 0, ["C04.lt100"], tree=("DDEEP", (B + 1, 2 * B, 5)))
+            c["damage"] = [{"file": 0, "kind": "flip", "arg": B}]
+            out.append(c)
         out += big_piece_cases(self, rng, ["C04.lt100"], [[{"file": 0, "kind": "flip", "arg": 2 ** 20 + 7}],
                                                           [{"file": 0, "kind": "trunc", "arg": 2 ** 21}]])
         lim = 20000 if tier == "thorough" else 1000
@@ -322,6 +337,13 @@ class C05(RecheckProp):
                 for P, tr in ((2 * M, ("S1", (3 * M,))), (2 * M, ("D2", (2 * M + 1, 5))), (M, ("D2", (M + 5, 3))), (4 * M, ("S1", (5 * M + 1,))),
                               (8 * M, ("D3", (M + 7, 9 * M + 3, 100 * 1024)))):
                     trees.append((v, src, P, tr))
+        # hundreds of files, deep nesting, a thousand pieces
+        small = [0, 1, 2, 3, 5, B - 1, B, B + 1]
+        for v in (1, 2, 3):
+            for src in ("own", "ref"):
+                trees.append((v, src, B, ("DW", tuple(rng.choice(small) if k % 7 else rng.choice((2 * B, 3 * B + 1)) for k in range(200)))))
+                trees.append((v, src, B, ("DDEEP", (B + 1, 2 * B, 5))))
+            trees.append((v, "own", B, ("S1", (1025 * B + 1,))))
         for v, src, P, tree in trees:
             g += 1
             base = self.mk(rng, P, v, src, 0, ["C05.hundred", "C05.rootparent"], tree=tree, group="g%d" % g)
